@@ -322,6 +322,10 @@ def _specialise_templates(c: Ctx, sites: list[TokSite]) -> list[TokSite]:
                         r_ = resolve_lit(cs.caller, a)
                         if r_ is not None and (literal_strs(r_) is not None or literal_ints(r_) is not None):
                             env[pn] = r_
+                        elif isinstance(a, ast.Name):
+                            r_ = _choice_of_defs(c, cs.caller, a.id, cs.node)
+                            if r_ is not None:
+                                env[pn] = r_
             te, ge, ne = pe(ts.type_expr, env), pe(ts.tag_expr, env), pe(ts.nesting_expr, env)
             kinds = literal_strs(te)
             if kinds is None:
@@ -340,6 +344,35 @@ def _specialise_templates(c: Ctx, sites: list[TokSite]) -> list[TokSite]:
         else:
             out.append(ts)
     return out
+
+
+def _choice_of_defs(c: Ctx, f: Func, name: str, at: ast.AST) -> ast.AST | None:
+    """`if c: name, m = "strong", x  else: name, m = "em", y`: when every definition of `name` reaching `at` stores a string /
+    integer literal (directly or as one component of a tuple store), the choice between them as a conditional expression
+    with an opaque test - literal_strs / literal_ints enumerate its branches."""
+    from .interproc import reaching
+    ds = reaching(c, f).at_ast(at, name)
+    vals: list[ast.AST] = []
+    for d in ds:
+        v = None
+        if d.kind == "assign" and d.value is not None:
+            v = d.value
+        elif d.kind == "unpack" and isinstance(d.stmt, ast.Assign) and len(d.stmt.targets) == 1 \
+                and isinstance(d.stmt.targets[0], (ast.Tuple, ast.List)) and isinstance(d.stmt.value, (ast.Tuple, ast.List)) \
+                and len(d.stmt.targets[0].elts) == len(d.stmt.value.elts):
+            for t, x in zip(d.stmt.targets[0].elts, d.stmt.value.elts):
+                if isinstance(t, ast.Name) and t.id == name:
+                    v = x
+        if v is None or (literal_strs(v) is None and literal_ints(v) is None):
+            return None
+        vals.append(v)
+    if not vals:
+        return None
+    vals.sort(key=lambda v: (getattr(v, "lineno", 0), getattr(v, "col_offset", 0)))
+    acc = vals[-1]
+    for v in reversed(vals[:-1]):
+        acc = ast.IfExp(test=ast.Name(id="?", ctx=ast.Load()), body=v, orelse=acc)
+    return acc
 
 
 def _post_stores(f: Func, call: ast.Call, ts: TokSite) -> None:
